@@ -479,7 +479,7 @@ Section NSHistory.
     injection H as H1 H2. subst s3 out3.
     pose proof (fold_clear_ns _ s s1 Hs Hs1) as H1.
     change (fold_left (gd_step (F:=F))
-              (combine params (map (fun h => match grad_of s h with None => true | Some _ => false end) params))
+              (combine params (frozen_flags s [] params))
               (Some (s1, sgd_zip O lr (concat pv) (concat pg), [])) = Some (s2, buf3, out)) in Hfold.
     eapply fold_gd_ns; eassumption.
   Qed.
